@@ -4,9 +4,10 @@ the accept/reject decision of validateTypedInitializer) — C16 kernel, C08 (ana
 import re, os
 from tools import cxx2c
 from tools.cxx2c import Lower, Unsupported, kids, qt, qt_sugar, strip, strip_parens, callee_name, norm_type, walk
+from tools.cxx2c import REPO as _REPO
 
 NAME = 'SEMK'
-SRC = '/repo/src/bloch/compiler/semantics/semantic_analyser.cpp'
+SRC = _REPO + '/src/bloch/compiler/semantics/semantic_analyser.cpp'
 NAMESPACE = 'bloch::compiler'
 FUNCS = ['isArrayTypeName', 'isArrayType', 'isClassRefType', 'isAccessible', 'isAssignableType', 'conversionCost', 'resolveField', 'recordFinalFieldAssignment']
 LAMBDAS = ['matchesPrimitive', 'numericPromotion']
